@@ -255,6 +255,31 @@ func (w *vWorld) waitingJobs() []*vJob {
 	return out
 }
 
+// vCheckTasksAtAccept: the task list a job reports is the snapshot of the definition in force when it
+// was accepted - whatever else happened to the queue (C16; the graph handed to the scheduler is
+// compared again when the job starts).
+func vCheckTasksAtAccept(vj *vJob) {
+	want := vTasks(vj.defGen)
+	got := vj.job.Tasks
+	verifAssert(len(got) == len(want), "C16.tasks-as-accepted.count")
+	for _, jt := range got {
+		td, ok := want[jt.Name]
+		verifAssert(ok, "C16.tasks-as-accepted.name")
+		if !ok {
+			continue
+		}
+		verifAssert(jt.AllowFailure == td.AllowFailure, "C16.tasks-as-accepted.allow_failure")
+		verifAssert(len(jt.Script) == len(td.Script), "C16.tasks-as-accepted.script")
+		for i := range td.Script {
+			if i < len(jt.Script) {
+				verifAssert(jt.Script[i] == td.Script[i], "C16.tasks-as-accepted.script")
+			}
+		}
+		verifAssert(len(jt.DependsOn) == len(td.DependsOn), "C16.tasks-as-accepted.depends_on")
+		verifAssert(len(jt.Env) == len(td.Env), "C16.tasks-as-accepted.task_env")
+	}
+}
+
 func vCheckGraphAgainstSnapshot(vj *vJob, g *scheduler.ExecutionGraph) {
 	if vj.graphChecked {
 		return
@@ -467,6 +492,7 @@ func (w *vWorld) doSchedule(reserved bool) {
 		vj.vars = 1
 	}
 	w.jobs = append(w.jobs, vj)
+	vCheckTasksAtAccept(vj)
 	if len(w.timers) > nTimers {
 		vj.timer = w.timers[len(w.timers)-1]
 		vj.timer.job = vj
@@ -567,6 +593,11 @@ func (w *vWorld) doRet(vj *vJob, sub int) {
 	verifAssert(j.Completed && j.End != nil, "C01.returned-job-reported-completed")
 	if sub == 1 {
 		verifAssert(j.Canceled, "C04.canceled-run-reported-canceled")
+	}
+	if vj.cancelAck {
+		// the literal property: an acknowledged cancel of an unfinished job ends reported as canceled,
+		// whatever the tasks made of the stop (exit status, success) and however late it landed
+		verifAssert(j.Canceled, "C04.acknowledged-cancel-ends-reported-as-canceled")
 	}
 	if sub == 2 {
 		verifAssert(j.LastError != nil, "C08.failed-run-reports-error")
@@ -832,6 +863,12 @@ func (w *vWorld) afterEvent() {
 			// under an unchanged definition: free slot and delay over => it would have been started
 			verifAssert(!(timerDone && live < def.Concurrency), "C03.eligible-head-starts-at-once")
 			verifAssert(timerDone || timerPending, "C03.delayed-head-keeps-its-timer")
+			// C06: a request arriving now must not overtake the queue. ScheduleAsync starts a newcomer
+			// whenever the runner's own count of running jobs is below the concurrency, so while a job
+			// whose delay is over waits, that count must say "full".
+			if timerDone {
+				verifAssert(running >= def.Concurrency, "C06.newcomer-cannot-overtake-a-ready-waiting-job")
+			}
 		}
 		verifReach("state.waiting")
 		if len(waiting) >= 3 {
